@@ -131,7 +131,7 @@ theorem leaderInit_inv (s : Node) (hs : Inv s) : Inv s.leaderInit := by
   · exact h.ldr _ _ (h.toClosed.assert_inv _ _ _ hs)
 
 theorem leaderRelease_inv (s : Node) (hs : Inv s) : Inv s.leaderRelease := by
-  unfold Node.leaderRelease; dsimp only
+  unfold Node.leaderRelease Node.leaderReleaseRest; dsimp only
   apply h.ldr
   apply Closed.foldl_inv _ (fun s t hs => h.reply _ _ _ hs)
   apply Closed.foldl_inv _ (fun s t hs => h.reply _ _ _ hs)
@@ -389,7 +389,6 @@ theorem onWaitForStable_inv (s : Node) (t : Nat) (hs : Inv s) : Inv (s.onWaitFor
 
 theorem rpcDone_inv (s : Node) (a b : Bool) (hs : Inv s) : Inv (s.rpcDone a b) := by
   unfold Node.rpcDone
-  dsimp only
   inv_auto h
 
 theorem shutdown_inv (s : Node) (hs : Inv s) : Inv s.shutdown := by
